@@ -8,6 +8,16 @@ NOTES = {
            'direction; it now demands the inverse law for every destination the library itself accepts',
     'c08': '**missed at first**: C08 got the events delete_funding / utxo_add_spent and funded start states',
     'c09': '**missed at first**: C09 got a second, lower explicit path per chain (descending creation order)',
+    'c01_2': '**missed at first**: a stale hashOutputs cache only shows when outputs change in place between two digests on the '
+             'same object; C01 got the operation-history search on one live Transaction (vf/txhist.py)',
+    'c06_2': '**missed at first**: stale id after sign_and_update; C06 got the same history search with id/byte invariants',
+    'c09_2': '**missed at first**: explicit account_id=0 in a wallet whose default account is not 0; C09 got a configuration '
+             'with default account 5 and events with explicit account ids (this also exposed a genuine defect: utxo_add '
+             're-labelled the funded key to account 0, repaired)',
+    'c10_2': '**missed at first**: explicit cosigner_id=0 through get_key(); C10 now requests every cosigner index through '
+             'get_key / get_keys / new_key on legacy wallets',
+    'c20_2': '**missed at first**: needs a partially filled address cache; C20 got getutxos(limit) events, the bal family and the '
+             'invariant on the cached address record',
     'c13': '**missed at first**: C13 verified every triple on a fresh object; it now explores verify-call histories on '
            'one Signature object (sub-space reuse)',
 }
